@@ -665,7 +665,8 @@ Section BottomUpStatements.
 
   (* a frame without peaks yields a record without instances and leaves its batch-mates' records unchanged.
      `forall img, group img [] = []` (PAFScorer.predict on no peaks returns no instance) is a hypothesis about the
-     per-sample code: observed by the harness on every empty frame, not proved *)
+     per-sample code here (generic `group`); it is DISCHARGED from property C08's model of PAFScorer.predict in the
+     round-6 block below: c12_bottomup_empty_frame_from_c08 *)
   Theorem c12_bottomup_empty_frame : forall mi (xs1 : list (src frame)) x xs2,
     (forall img, group img [] = []) -> detect (s_img frame x) = [] ->
     buf mi [x] = [(s_fidx frame x, s_vidx frame x, [])] /\
@@ -732,3 +733,317 @@ Proof. vm_compute. reflexivity. Qed.
 Example ex_box_sample_inds :
   frun (CBox 3%nat [[0%nat; 2%nat]; []; [1%nat; 1%nat; 2%nat]]) = RBox [0%nat; 2%nat; 7%nat; 7%nat; 8%nat].
 Proof. vm_compute. reflexivity. Qed.
+
+(* ================================================================== round 6: the bottom-up empty-frame clause WITHOUT
+   the hypothesis `group img [] = []` — derived from property C08's model of PAFScorer.predict (C08/Grouping.v,
+   imported read-only; tied to the real PAFScorer by harness/props/c08.py incl. empty frames).  C12/EmptyFromC08.v:
+   C12's `group` is instantiated by `group_c08 img ps` = the (row, score) pairs of
+   `predict_sample lsa fx big n_nodes edges mip mls ps (line_scores img ps)`; peak = (channel, payload) as in C08,
+   `line_scores` (score_paf_lines, C03: not modelled in C08 either) any function of the frame and ITS peaks.
+   Remaining hypotheses: the skeleton passed PAFScorer's construction (`toposort edges = Some _`) and the
+   assignment oracle meets C08's `lsa_contract` (a theorem for the brute-force oracle: `_bf` variant). *)
+From SV Require Import C17.Toposort C08.Grouping C08.Lemmas C12.EmptyFromC08.
+
+(* PAFScorer.predict on one sample (C08's model): no match passes `>= min_line_scores` -> no instance, no exception —
+   whatever the peaks, scores, min_instance_peaks, oracle *)
+Theorem c12_paf_grouping_no_accepted_match_no_instances : forall (P : Type) lsa fx big n_nodes edges m mls sorted
+    (peaks : list (nat * P)) scores ms,
+  toposort edges = Some sorted ->
+  match_sample lsa fx big (length edges) (sample_cands edges peaks scores) = Ok ms ->
+  filter (accept mls) ms = [] ->
+  predict_sample lsa fx big n_nodes edges m mls peaks scores = Ok ([], []).
+Proof. intros P. apply (@predict_no_accepted_match P). Qed.
+
+(* no candidate connection at all (no edge with peaks at both ends) *)
+Theorem c12_paf_grouping_no_candidates_no_instances : forall (P : Type) lsa fx big n_nodes edges m mls sorted
+    (peaks : list (nat * P)) scores,
+  lsa_contract lsa -> toposort edges = Some sorted -> sample_cands edges peaks scores = [] ->
+  predict_sample lsa fx big n_nodes edges m mls peaks scores = Ok ([], []).
+Proof. intros P. apply (@predict_no_candidates P). Qed.
+
+(* no peak: `forall img, group img [] = []` for C08's model *)
+Theorem c12_paf_grouping_no_peaks_no_instances : forall (P : Type) lsa fx big n_nodes edges m mls sorted scores,
+  lsa_contract lsa -> toposort edges = Some sorted ->
+  predict_sample lsa fx big n_nodes edges m mls (@nil (nat * P)) scores = Ok ([], []).
+Proof. intros P. apply (@predict_no_peaks P). Qed.
+
+Section BottomUpFromC08Statements.
+  Variables frame P : Type.
+  Variable detect : frame -> list (nat * P).
+  Variable line_scores : frame -> list (nat * P) -> list Grouping.score.
+  Variables (fx : bool) (big : Q) (n_nodes : nat) (edges : list edge) (m : mip) (mls : Q).
+  Notation buf8 lsa := (bottomup_frames frame (nat * P) (inst08 P) detect
+                          (group_c08 frame P line_scores lsa fx big n_nodes edges m mls) (visible08 P) (score08 P)).
+
+  (* a frame without peaks yields a record without instances under its own indices and leaves its batch-mates'
+     records unchanged — no hypothesis about the per-sample grouping code *)
+  Theorem c12_bottomup_empty_frame_from_c08 : forall lsa sorted mi (xs1 : list (src frame)) x xs2,
+    lsa_contract lsa -> toposort edges = Some sorted ->
+    detect (s_img frame x) = [] ->
+    buf8 lsa mi [x] = [(s_fidx frame x, s_vidx frame x, [])] /\
+    buf8 lsa mi (xs1 ++ [x] ++ xs2) = buf8 lsa mi xs1 ++ [(s_fidx frame x, s_vidx frame x, [])] ++ buf8 lsa mi xs2.
+  Proof. intros lsa. apply bottomup_empty_frame_c08. Qed.
+
+  (* with the executable brute-force oracle the contract is discharged as well *)
+  Theorem c12_bottomup_empty_frame_from_c08_bf : forall sorted mi (xs1 : list (src frame)) x xs2,
+    toposort edges = Some sorted ->
+    detect (s_img frame x) = [] ->
+    buf8 lsa_bf mi [x] = [(s_fidx frame x, s_vidx frame x, [])] /\
+    buf8 lsa_bf mi (xs1 ++ [x] ++ xs2)
+    = buf8 lsa_bf mi xs1 ++ [(s_fidx frame x, s_vidx frame x, [])] ++ buf8 lsa_bf mi xs2.
+  Proof. intros sorted mi xs1 x xs2. apply bottomup_empty_frame_c08. apply lsa_bf_contract. Qed.
+
+  (* and it is not the adapter's `Err -> []` branch that empties the frame: PAFScorer raises nothing there *)
+  Theorem c12_bottomup_empty_frame_no_exception : forall lsa sorted, lsa_contract lsa -> toposort edges = Some sorted ->
+    forall img, predict_sample lsa fx big n_nodes edges m mls (@nil (nat * P)) (line_scores img []) = Ok ([], []).
+  Proof. intros lsa. apply group_c08_no_peaks_no_exception. Qed.
+
+  (* stronger: a frame WITH peaks none of whose matches passes min_line_scores (NaN included) — same record *)
+  Theorem c12_bottomup_no_accepted_match_from_c08 : forall lsa sorted mi (xs1 : list (src frame)) x xs2 ms,
+    toposort edges = Some sorted ->
+    match_sample lsa fx big (length edges)
+      (sample_cands edges (detect (s_img frame x)) (line_scores (s_img frame x) (detect (s_img frame x)))) = Ok ms ->
+    filter (accept mls) ms = [] ->
+    buf8 lsa mi [x] = [(s_fidx frame x, s_vidx frame x, [])] /\
+    buf8 lsa mi (xs1 ++ [x] ++ xs2) = buf8 lsa mi xs1 ++ [(s_fidx frame x, s_vidx frame x, [])] ++ buf8 lsa mi xs2.
+  Proof. intros lsa. apply bottomup_no_accepted_match_c08. Qed.
+End BottomUpFromC08Statements.
+
+Print Assumptions c12_paf_grouping_no_accepted_match_no_instances.
+Print Assumptions c12_paf_grouping_no_candidates_no_instances.
+Print Assumptions c12_paf_grouping_no_peaks_no_instances.
+Print Assumptions c12_bottomup_empty_frame_from_c08.
+Print Assumptions c12_bottomup_empty_frame_from_c08_bf.
+Print Assumptions c12_bottomup_empty_frame_no_exception.
+Print Assumptions c12_bottomup_no_accepted_match_from_c08.
+
+(* non-vacuity: skeleton 0 -> 1, batch of 3, brute-force oracle, current tree (fixed_F3 = true, big = 1e6),
+   min_line_scores 1/20.  Frame 7: two peaks per node, line scores .9 .1 .2 .8 -> two instances (the adapter
+   does produce instances); frame 8: no peak -> empty record (c12_bottomup_empty_frame_from_c08_bf); frame 9: one
+   peak per node, NaN line score -> empty record (c12_bottomup_no_accepted_match_from_c08).  max_instances 1
+   keeps frame 7's .9 instance. *)
+Definition exframe8 := (list (nat * nat) * list Grouping.score)%type.
+Definition exbuf8 := bottomup_frames exframe8 (nat * nat) (inst08 nat) (@fst _ _)
+   (group_c08 exframe8 nat (fun x _ => snd x) lsa_bf true 1000000 2%nat [(0%nat, 1%nat)] (MipInt 0) (1 # 20))
+   (visible08 nat) (score08 nat).
+Definition exfs8 : list (src exframe8) :=
+  [ {| s_img := ([(0, 10); (0, 11); (1, 20); (1, 21)]%nat, [Some (9 # 10); Some (1 # 10); Some (2 # 10); Some (8 # 10)]);
+       s_fidx := 7%nat; s_vidx := 0%nat |};
+    {| s_img := ([], []); s_fidx := 8%nat; s_vidx := 1%nat |};
+    {| s_img := ([(0, 30); (1, 40)]%nat, [None]); s_fidx := 9%nat; s_vidx := 0%nat |} ].
+Example ex_bottomup_from_c08 :
+  toposort [(0%nat, 1%nat)] = Some [0%nat] /\
+  exbuf8 None exfs8 = [(7%nat, 0%nat, [([Some 10%nat; Some 20%nat], 9 # 10); ([Some 11%nat; Some 21%nat], 8 # 10)]);
+                       (8%nat, 1%nat, []); (9%nat, 0%nat, [])] /\
+  exbuf8 (Some 1%nat) exfs8 = [(7%nat, 0%nat, [([Some 10%nat; Some 20%nat], 9 # 10)]); (8%nat, 1%nat, []); (9%nat, 0%nat, [])].
+Proof. vm_compute. repeat split; reflexivity. Qed.
+
+(* ================================================================== round 6: max_instances WITH the tie-breaking.
+   The earlier theorems say: the kept ones are k highest (every kept >= every dropped), in decreasing order.  That
+   leaves the choice among EQUAL scores open.  The bottom-up code is literally
+   `sorted(instances, key=score, reverse=True)[:k]` (CPython: stable, equal keys keep their input order);
+   C12/SortModel.v `sorted_desc` is that sort, and the evaluated selection model `topk` (Batch.v; `bu_limit`/`bu_frame`
+   of Flat.v, `kept` of the top-down path) equals the sort followed by the slice.  (Top-down: torch.topk's order among
+   equal values is not specified by torch — trusted base, the harness skips equal values there; for the bottom-up
+   records the tie order is part of the code's semantics and compared as sets only on equal scores.) *)
+From SV Require Import C12.SortModel C12.LemmasSort.
+
+Section MaxInstancesTieBreaking.
+  Variable inst : Type.
+  Variable visible : inst -> bool.
+  Variable score : inst -> Q.
+
+  (* `sorted_desc` is THE stable descending sort: a permutation, decreasing, equal scores keep the input order
+     (these three determine the list) *)
+  Theorem c12_sorted_desc_is_stable_descending_sort : forall l,
+    Permutation l (sorted_desc inst score l) /\
+    (forall a b t1 t2, sorted_desc inst score l = t1 ++ a :: b :: t2 -> Qle (score b) (score a)) /\
+    (forall v, with_key inst score v (sorted_desc inst score l) = with_key inst score v l).
+  Proof.
+    intros l. split; [apply sorted_desc_perm|]. split; [apply sorted_desc_decreasing|].
+    intros v. apply sorted_desc_stable.
+  Qed.
+
+  (* the selection model = sort + slice, every k, every list (equality of lists: order and ties included) *)
+  Theorem c12_topk_is_stable_sort_then_slice : forall k l,
+    topk inst score k l = firstn k (sorted_desc inst score l).
+  Proof. apply topk_is_sorted_prefix. Qed.
+
+  (* the bottom-up record of a frame with max_instances = k: drop all-NaN instances, sort, slice *)
+  Theorem c12_bottomup_max_instances_is_stable_sort_then_slice : forall k l,
+    bu_frame inst visible score (Some k) l = firstn k (sorted_desc inst score (filter visible l)).
+  Proof. apply bu_frame_is_sorted_slice. Qed.
+
+  (* the tie-breaking in words: of the instances with one score value v, the kept ones are the first j of the frame
+     (in PAFScorer order), in that order — never a later one instead of an earlier one *)
+  Theorem c12_max_instances_ties_keep_earliest : forall v k l,
+    exists j, with_key inst score v (topk inst score k l) = firstn j (with_key inst score v l).
+  Proof. apply topk_ties_keep_earliest. Qed.
+End MaxInstancesTieBreaking.
+
+Print Assumptions c12_sorted_desc_is_stable_descending_sort.
+Print Assumptions c12_topk_is_stable_sort_then_slice.
+Print Assumptions c12_bottomup_max_instances_is_stable_sort_then_slice.
+Print Assumptions c12_max_instances_ties_keep_earliest.
+
+(* non-vacuity, on the evaluated entry: scores 1/2 3/4 1/2 3/4, max_instances 3 -> ids 1 3 0 (the later 1/2 is dropped) *)
+Example ex_bottomup_tie_breaking :
+  frun (CBu (Some 3%nat) 1%nat
+          [(7%nat, 0%nat, ([0%nat; 1%nat], [(0%nat, 1 # 2); (1%nat, 3 # 4); (2%nat, 1 # 2); (3%nat, 3 # 4)]))])
+  = RBu [[(7%nat, 0%nat, [0%nat; 1%nat], [1%nat; 3%nat; 0%nat])]] /\
+  sorted_desc (nat * Q) snd [(0%nat, 1 # 2); (1%nat, 3 # 4); (2%nat, 1 # 2); (3%nat, 3 # 4)]
+  = [(1%nat, 3 # 4); (3%nat, 3 # 4); (0%nat, 1 # 2); (2%nat, 1 # 2)].
+Proof. vm_compute. split; reflexivity. Qed.
+
+(* ================================================================== round 6: "the per-sample code depends on the sample
+   alone" as a THEOREM for the peak-finding stage.  Until here `detect : frame -> list peak` was a parameter and the
+   batch call was `flat_peaks detect 0 xs` — per-sample by typing.  Property C06's `local_peaks_p cms thr p`
+   (C06/Peaks.v, read-only; tied to the real find_local_peaks by harness/props/c06.py) models the BATCH call: dims read
+   off the batch, torch.where over (sample, y, x, channel), refinement on entry sample*C+channel of the flattened batch.
+   C12/DetectFromC06.v defines `detect06 thr p chans` := that model run on the one-sample batch [chans] and proves that
+   the batch call equals `flat_peaks detect06`, order included.  Remaining typing assumptions: the network
+   (`cms_of`) and `group`. *)
+From SV Require Import C06.Peaks C06.Lemmas C12.DetectFromC06.
+
+(* find_local_peaks on a batch (C06's model) = the per-sample finder applied to every sample, tagged, concatenated *)
+Theorem c12_batch_peak_finding_is_per_sample : forall cms thr p C H W,
+  dims cms = (C, H, W) -> C06.Lemmas.rect C H W cms ->
+  map untag (local_peaks_p cms thr p) = flat_peaks (list cmap) speak (detect06 thr p) 0%nat cms.
+Proof. exact batch_peaks_are_per_sample. Qed.
+
+(* the split `peaks[(peak_sample_inds == b)]` of the batch call = the peaks of sample b computed alone *)
+Theorem c12_batch_peak_finding_split_is_own_sample : forall cms thr p C H W b chans,
+  dims cms = (C, H, W) -> C06.Lemmas.rect C H W cms -> nth_error cms b = Some chans ->
+  split_sample speak (map untag (local_peaks_p cms thr p)) b = detect06 thr p chans.
+Proof. exact batch_peaks_split_by_sample. Qed.
+
+Section BottomUpOnC06Statements.
+  Variables frame inst : Type.
+  Variable cms_of : frame -> list cmap.
+  Variable group : frame -> list speak -> list inst.
+  Variables (thr : Q) (p : nat).
+
+  (* the bottom-up inference model with C06's batch call in place of flat_peaks IS the C12 model instantiated with
+     the per-sample finder, hence per-frame; `stackable` = the samples' maps have one shape (torch.stack) *)
+  Theorem c12_bottomup_on_c06_is_the_model : forall fs, stackable frame cms_of fs ->
+    bottomup_batch06 frame inst cms_of group thr p fs
+    = bottomup_batch frame speak inst (fun x => detect06 thr p (cms_of x)) group fs.
+  Proof. apply bottomup_batch06_is_model. Qed.
+
+  Theorem c12_bottomup_on_c06_is_per_frame : forall fs, stackable frame cms_of fs ->
+    bottomup_batch06 frame inst cms_of group thr p fs = map (bottomup_one06 frame inst cms_of group thr p) fs.
+  Proof. apply bottomup_batch06_is_per_frame. Qed.
+
+  Theorem c12_bottomup_on_c06_independent_of_batch_mates : forall xs1 x xs2, stackable frame cms_of (xs1 ++ [x] ++ xs2) ->
+    bottomup_batch06 frame inst cms_of group thr p (xs1 ++ [x] ++ xs2)
+    = map (bottomup_one06 frame inst cms_of group thr p) xs1 ++ [bottomup_one06 frame inst cms_of group thr p x]
+      ++ map (bottomup_one06 frame inst cms_of group thr p) xs2.
+  Proof. apply bottomup_batch06_mates. Qed.
+End BottomUpOnC06Statements.
+
+Section TopDownOnC06Statements.
+  Variables frame inst : Type.
+  Variable cms_of : frame -> list cmap.
+  Variable crop_infer : frame -> speak -> inst.
+  Variables (thr : Q) (p : nat).
+
+  (* top-down: CentroidCrop.forward + _generate_crops + FindInstancePeaks with C06's batch call for the centroid peaks
+     (`centroid_rows06`: Batch.centroid_rows with `flat_peaks detect` replaced by `local_peaks_p` on the stacked maps)
+     IS the C12 top-down model instantiated with the per-sample finder, hence per-frame *)
+  Theorem c12_topdown_on_c06_is_the_model : forall mi fs, stackable frame cms_of fs ->
+    topdown_batch06 frame inst cms_of crop_infer thr p mi fs
+    = topdown_batch frame speak inst (fun x => detect06 thr p (cms_of x)) value06 crop_infer mi fs.
+  Proof. apply topdown_batch06_is_model. Qed.
+
+  Theorem c12_topdown_on_c06_is_per_frame : forall mi fs, stackable frame cms_of fs ->
+    topdown_batch06 frame inst cms_of crop_infer thr p mi fs
+    = flat_map (topdown_one frame speak inst (fun x => detect06 thr p (cms_of x)) value06 crop_infer mi) fs.
+  Proof. apply topdown_batch06_is_per_frame. Qed.
+End TopDownOnC06Statements.
+
+Print Assumptions c12_topdown_on_c06_is_the_model.
+Print Assumptions c12_topdown_on_c06_is_per_frame.
+Print Assumptions c12_batch_peak_finding_is_per_sample.
+Print Assumptions c12_batch_peak_finding_split_is_own_sample.
+Print Assumptions c12_bottomup_on_c06_is_the_model.
+Print Assumptions c12_bottomup_on_c06_is_per_frame.
+Print Assumptions c12_bottomup_on_c06_independent_of_batch_mates.
+
+(* non-vacuity: 3 samples x 2 channels x 3 x 3, threshold 1/2, patch 3; the middle sample has no peak.  The batch
+   call reports sample 0's two peaks, then sample 2's one; each sample alone reports the same *)
+Definition ex6_s0 : list cmap := [ [[0;0;0];[0;1;0];[0;0;0]] ; [[3;1;0];[0;0;0];[0;0;0]] ]%Q.
+Definition ex6_s1 : list cmap := [ [[0;0;0];[0;0;0];[0;0;0]] ; [[0;0;0];[0;0;0];[0;0;0]] ]%Q.
+Definition ex6_s2 : list cmap := [ [[0;0;0];[0;0;0];[0;0;0]] ; [[0;0;0];[0;0;0];[0;0;2]] ]%Q.
+Example ex_batch_peak_finding_per_sample :
+  dims [ex6_s0; ex6_s1; ex6_s2] = (2%nat, 3%nat, 3%nat) /\
+  map untag (local_peaks_p [ex6_s0; ex6_s1; ex6_s2] (1 # 2) 3)
+  = [(0%nat, (Some (1 # 4, 0 # 4), 3, 1%nat)); (0%nat, (Some (1, 1), 1, 0%nat)); (2%nat, (Some (4 # 2, 4 # 2), 2, 1%nat))]%Q /\
+  detect06 (1 # 2) 3 ex6_s0 = [(Some (1 # 4, 0 # 4), 3, 1%nat); (Some (1, 1), 1, 0%nat)]%Q /\
+  detect06 (1 # 2) 3 ex6_s1 = [] /\
+  detect06 (1 # 2) 3 ex6_s2 = [(Some (4 # 2, 4 # 2), 2, 1%nat)]%Q.
+Proof. vm_compute. repeat split; reflexivity. Qed.
+
+Example ex_stackable : stackable (list cmap) (fun x => x)
+  (map (fun x => {| s_img := x; s_fidx := 0%nat; s_vidx := 0%nat |}) [ex6_s0; ex6_s1; ex6_s2]).
+Proof.
+  exists 2%nat, 3%nat, 3%nat. split; [reflexivity|].
+  repeat constructor.
+Qed.
+
+(* ================================================================== round 6: single-instance models on property C07's
+   model of the BATCH call find_global_peaks (`global_peaks_p`, C07/Global.v, read-only; tied to the real function by
+   harness/props/c07.py): argmax per map, flattening to samples*channels, valid_idx, patches from `concat cms`, scatter,
+   reshape.  C12/SingleFromC07.v builds the SingleInstancePredictor records (`Flat.si_record`, as in `frun CSi`) on it.
+   `same_channels` = the samples can be stacked.  Remaining typing assumption: the network (`cms_of`). *)
+From SV Require Import C07.Global C12.SingleFromC07.
+
+Section SingleOnC07Statements.
+  Variable frame : Type.
+  Variable cms_of : frame -> list cmap.
+  Variables (fixed : bool) (thr : Q) (refine : option nat).
+  Notation sf7 := (single_frames07 frame cms_of fixed thr refine).
+  Notation so7 := (single_one07 frame cms_of fixed thr refine).
+
+  (* the records of a batch = every frame's maps alone (rough argmax + refinement on its own map), both trees *)
+  Theorem c12_single_on_c07_is_per_frame : forall fx fs, same_channels frame cms_of fs ->
+    sf7 fx fs = flat_map (so7 fx) fs.
+  Proof. apply single_frames07_is_per_frame. Qed.
+
+  Theorem c12_single_on_c07_independent_of_batch_mates : forall fx xs1 x xs2,
+    same_channels frame cms_of (xs1 ++ [x] ++ xs2) ->
+    sf7 fx (xs1 ++ [x] ++ xs2) = flat_map (so7 fx) xs1 ++ so7 fx x ++ flat_map (so7 fx) xs2.
+  Proof. apply single_frames07_mates. Qed.
+
+  (* empty frame (no map of the frame reaches the threshold), CURRENT tree: no record, batch-mates' records their own *)
+  Theorem c12_single_on_c07_empty_frame : forall xs1 x xs2, same_channels frame cms_of (xs1 ++ [x] ++ xs2) ->
+    (forall m, In m (cms_of (s_img frame x)) -> fst (global_rough fixed m thr) = None) ->
+    so7 true x = [] /\
+    sf7 true (xs1 ++ [x] ++ xs2) = flat_map (so7 true) xs1 ++ flat_map (so7 true) xs2.
+  Proof. apply single07_empty_frame. Qed.
+
+  (* the same frame in the PINNED tree: one instance, every node NaN (finding F62, fixed in /repo 8463f22) *)
+  Theorem c12_single_on_c07_empty_frame_pinned : forall x,
+    (forall m, In m (cms_of (s_img frame x)) -> fst (global_rough fixed m thr) = None) ->
+    so7 false x = [(s_fidx frame x, s_vidx frame x, [row07 frame cms_of fixed thr refine (s_img frame x)])] /\
+    all_nan npeak (row07 frame cms_of fixed thr refine (s_img frame x)) = true.
+  Proof. apply single07_empty_frame_pinned. Qed.
+End SingleOnC07Statements.
+
+Print Assumptions c12_single_on_c07_is_per_frame.
+Print Assumptions c12_single_on_c07_independent_of_batch_mates.
+Print Assumptions c12_single_on_c07_empty_frame.
+Print Assumptions c12_single_on_c07_empty_frame_pinned.
+
+(* non-vacuity: 3 frames x 2 channels x 3 x 3, threshold 1/2, patch 3, current argmax (C07 fixed = true); frame 8 is
+   empty: no record in the current tree, one all-NaN instance in the pinned tree; frame 9's channel 0 is NaN *)
+Definition ex7_fs : list (src (list cmap)) :=
+  [ {| s_img := ex6_s0; s_fidx := 7%nat; s_vidx := 0%nat |}; {| s_img := ex6_s1; s_fidx := 8%nat; s_vidx := 1%nat |};
+    {| s_img := ex6_s2; s_fidx := 9%nat; s_vidx := 0%nat |} ].
+Example ex_single_on_c07 :
+  same_channels (list cmap) (fun x => x) ex7_fs /\
+  single_frames07 (list cmap) (fun x => x) true (1 # 2) (Some 3%nat) true ex7_fs
+  = [(7%nat, 0%nat, [[Some (1, 1, 1); Some (1 # 4, 0 # 4, 3)]]); (9%nat, 0%nat, [[None; Some (4 # 2, 4 # 2, 2)]])]%Q /\
+  single_frames07 (list cmap) (fun x => x) true (1 # 2) (Some 3%nat) false ex7_fs
+  = [(7%nat, 0%nat, [[Some (1, 1, 1); Some (1 # 4, 0 # 4, 3)]]); (8%nat, 1%nat, [[None; None]]);
+     (9%nat, 0%nat, [[None; Some (4 # 2, 4 # 2, 2)]])]%Q.
+Proof. split; [repeat constructor|]. vm_compute. split; reflexivity. Qed.
